@@ -30,6 +30,7 @@ from sigma.types import (
     SigmaRegularExpression,
     SigmaRegularExpressionFlag,
     SigmaString,
+    SigmaStringPartType,
     SigmaType,
     SpecialChars,
 )
@@ -230,13 +231,34 @@ class ReplaceStringTransformation(StringValueTransformation):
 
     def apply_string_value(self, field: str | None, val: SigmaString) -> SigmaString:
         if isinstance(val, SigmaString):
-            if self.skip_special:
+            if self.skip_special and self.interpret_special:
+                # Only the replacement is interpreted, the text around the matches keeps the meaning
+                # it has in the value (e.g. an escaped asterisk stays a plain character).
+                parts: list[SigmaStringPartType] = []
+                for part in val.iter_parts():
+                    if isinstance(part, str):
+                        pos = 0
+                        for m in self.re.finditer(part):
+                            parts.append(part[pos : m.start()])
+                            parts.extend(SigmaString(m.expand(self.replacement)).s)
+                            pos = m.end()
+                        parts.append(part[pos:])
+                    else:
+                        parts.append(part)
+                result = val.__class__()
+                result.s = []
+                for part in parts:  # merge adjacent plain parts
+                    if isinstance(part, str) and result.s and isinstance(result.s[-1], str):
+                        result.s[-1] += part
+                    elif part != "":
+                        result.s.append(part)
+                return result
+            elif self.skip_special:
                 return val.map_parts(
                     lambda s: self.re.sub(
                         self.replacement, cast(str, s)
                     ),  # filter function in second parameter ensures str type.
                     lambda p: isinstance(p, str),
-                    self.interpret_special,
                 )
             else:
                 sigma_string_plain = str(val)
